@@ -92,9 +92,11 @@ Loaded ==
   /\ UNCHANGED <<file, ri, ver, shape, fail>>
   /\ LET end == IF fail = <<>> THEN "clean" ELSE Handle(fail[1], fail[2])
          n == IF fail = <<>> THEN Len(file.recs) ELSE ri - 1
+         ids == [i \in 1..Len(file.recs) |-> i]
      IN Emit(<<[k |-> "loaded", end |-> end, n |-> n, cur |-> TRUE,
                 exc |-> IF end = "clean" THEN "" ELSE IF end = "fre" THEN "FlowReadException" ELSE fail[2],
-                explains |-> end = "fre" /\ fail[2] = "ValueError" /\ ver \notin Supported]>>)
+                explains |-> end = "fre" /\ fail[2] = "ValueError" /\ ver \notin Supported]>>
+             \o (IF end = "clean" THEN <<[k |-> "content", a |-> ids, b |-> ids]>> ELSE <<>>))   \* converters keep content
 
 \* FlowWriter.add of every loaded flow, FlowReader again: current states migrate by identity
 Resave ==
